@@ -223,27 +223,31 @@ class XPathToken(Token[ta.XPathTokenType]):
 
         :param context: the XPath dynamic context.
         """
-        if context is None:
-            yield from self.select(context)
-        else:
-            self.parser.check_variables(context.variables)
+        try:
+            if context is None:
+                yield from self.select(context)
+            else:
+                self.parser.check_variables(context.variables)
 
-            for result in self.select_flatten(context):
-                if not isinstance(result, XPathNode):
-                    yield result
-                elif isinstance(result, NamespaceNode):
-                    if self.parser.compatibility_mode:
-                        yield result.prefix, result.uri
-                    else:
-                        yield result.uri
-                elif isinstance(result, DocumentNode):
-                    if result.is_extended:
-                        # cannot represent with an ElementTree: yield the document node
+                for result in self.select_flatten(context):
+                    if not isinstance(result, XPathNode):
                         yield result
-                    elif result is context.root or result is not context.document:
+                    elif isinstance(result, NamespaceNode):
+                        if self.parser.compatibility_mode:
+                            yield result.prefix, result.uri
+                        else:
+                            yield result.uri
+                    elif isinstance(result, DocumentNode):
+                        if result.is_extended:
+                            # cannot represent with an ElementTree: yield the document node
+                            yield result
+                        elif result is context.root or result is not context.document:
+                            yield result.value
+                    else:
                         yield result.value
-                else:
-                    yield result.value
+        except RecursionError:
+            msg = "expression too deeply nested: maximum recursion depth exceeded"
+            raise self.error('XPDY0130', msg) from None
 
     def get_results(self, context: ta.ContextType) -> \
             'list[ta.ResultType] | ta.AtomicType | XPathFunction':
